@@ -179,6 +179,11 @@ def _make_cand(c):
     if c['form'] == 'name':
         return name, None
     if c['form'] == 'instance':
+        if c['fam'] == 'truncated':
+            # a prototype built with positional constructor arguments
+            return zoo.load_class(name)(-1e6, 1e6), None
+        if c['fam'] == 'kde':
+            return zoo.load_class(name)(None, None, 'silverman'), None
         return zoo.load_class(name)(), None
     proto = FailingMarginal(base=name, mode=c['mode'], tag=c['tag'])
     return proto, proto._shared
@@ -196,10 +201,19 @@ def _cand_ident(c):
     return zoo.short(gmvlib.FAM[c['fam']])
 
 
-def _ref_ks(fam, sample):
-    """Fault-free KS statistic of the family on the selection sample (None if it cannot be
-    fitted or the statistic is not a number)."""
-    inst = zoo.load_class(gmvlib.FAM[fam])()
+def _plain_instance(c):
+    """A fresh, fault-free instance configured like candidate ``c``."""
+    if isinstance(c, str):
+        return zoo.load_class(gmvlib.FAM[c])()
+    if c['form'] == 'instance':
+        return _make_cand(dict(c))[0]
+    return zoo.load_class(gmvlib.FAM[c['fam']])()
+
+
+def _ref_ks(c, sample):
+    """Fault-free KS statistic of the candidate's family (configured like the candidate) on
+    the selection sample (None if it cannot be fitted or the statistic is not a number)."""
+    inst = _plain_instance(c)
     with sterile(77):
         o = outcome(inst.fit, sample)
         if o[0] != 'ok':
@@ -257,7 +271,7 @@ def _run_select(ctx, run):
             ctx.probes['selection_subsample_protocol_unrecognised'] += 1
     ks = {}
     for c in survivors:
-        k = _ref_ks(c['fam'], sample) if sample_known else None
+        k = _ref_ks(c, sample) if sample_known else None
         if k is not None:
             ks[_cand_ident(c)] = k
     pattern = ''.join('1' if _cand_ident(c) in ks else '0' for c in run['cands'])
@@ -367,11 +381,15 @@ def _run_gmv(ctx, run):
             protos[col] = (obj, shared, c)
     else:
         objs = [_make_cand(c) for c in cfg['cands']]
-        dist = Univariate(candidates=[o for o, _ in objs])
+        if run['state'] % 2:
+            dist = Univariate([o for o, _ in objs])        # positional prototype argument
+        else:
+            dist = Univariate(candidates=[o for o, _ in objs])
         protos['U'] = (dist, None, None)
         for (o, sh), c in zip(objs, cfg['cands']):
             protos[c['tag']] = (o, sh, c)
     before = {k: _proto_state(p[0]) for k, p in protos.items()}
+    dist_items = [(k, id(v)) for k, v in dist.items()] if isinstance(dist, dict) else None
     model = GaussianMultivariate(distribution=dist)
     with sterile(run['state']):
         out = outcome(model.fit, df)
@@ -434,6 +452,11 @@ def _run_gmv(ctx, run):
     if s[0] != 'ok' or len(s[1]) != 5 or list(s[1].columns) != list(df.columns):
         ctx.violate('c_model_can_sample_after_fallback', SUBJ_GMV,
                     'sample(5) after fit: %s' % (outcome_class(s),), **cond)
+    if dist_items is not None and [(k, id(v)) for k, v in dist.items()] != dist_items:
+        ctx.violate('d_configuration_dict_not_modified_by_use', SUBJ_GMV,
+                    'the caller\'s per-column distribution dict changed during fit '
+                    '(%d entries before, %d after, or other values)'
+                    % (len(dist_items), len(dist)), **cond)
     # (d) prototypes are configuration, not models: unchanged by use
     for k, (obj, shared, c) in protos.items():
         if _proto_state(obj) != before[k]:
